@@ -312,6 +312,26 @@ func TestC20(t *testing.T) {
 			}
 			return c
 		})
+		// ---- reductions of tensors that carry the engine
+		if eng != "" {
+			for _, op := range []string{"Sum", "Max", "Min", "Argmax"} {
+				op := op
+				c20cell(t, "C08.reduce", fmt.Sprintf("reduce/%s/eng=%s", op, eng), nCases(30, 800), func(rt *rapid.T) Case {
+					d := engDT(eng)
+					shape := genShapeMin2(rt, 1, 4, 4, "s")
+					c := &C08Case{Op: op, DT: d.Name, Via: rapid.SampledFrom([]string{"pkg", "method"}).Draw(rt, "via"), Eng: eng}
+					c.A = genOpnd(rt, shape, rapid.SampledFrom(c08Layouts).Draw(rt, "lk"), -4, 8, 0, "a")
+					if op == "Argmax" {
+						c.Axes = []int{rapid.IntRange(-1, len(shape)-1).Draw(rt, "axis")}
+					} else if rapid.IntRange(0, 2).Draw(rt, "all") == 0 {
+						c.Axes = nil
+					} else {
+						c.Axes = genAxesSubset(rt, len(shape))
+					}
+					return c
+				})
+			}
+		}
 		// ---- products incl. the engines' own Inner
 		for _, op := range []string{"Inner", "MatVecMul", "MatMul", "Outer", "Dot"} {
 			op := op
